@@ -43,8 +43,14 @@ func (mk mapKinds) keyLit(k int) string {
 	case "string":
 		return fmt.Sprintf("%q", fmt.Sprintf("k%02d", k))
 	case "int", "byte":
+		if k == 2 {
+			return "0" // the zero value of the key type is an ordinary key
+		}
 		return strconv.Itoa(k)
 	case "float":
+		if k == 2 {
+			return "0.0"
+		}
 		return fmt.Sprintf("%d.5", k-1)
 	case "bool":
 		if k == 1 {
@@ -59,8 +65,14 @@ func (mk mapKinds) keyPrinted(k int) string {
 	case "string":
 		return fmt.Sprintf("k%02d", k)
 	case "int", "byte":
+		if k == 2 {
+			return "0"
+		}
 		return strconv.Itoa(k)
 	case "float":
+		if k == 2 {
+			return "0"
+		}
 		return fmt.Sprintf("%d.5", k-1)
 	case "bool":
 		if k == 1 {
@@ -101,10 +113,19 @@ func (mk mapKinds) keyValue(k int) goat.Value {
 	case "string":
 		return goat.String(fmt.Sprintf("k%02d", k))
 	case "int":
+		if k == 2 {
+			return goat.Int(0)
+		}
 		return goat.Int(k)
 	case "byte":
+		if k == 2 {
+			return goat.Byte(0)
+		}
 		return goat.Byte(byte(k))
 	case "float":
+		if k == 2 {
+			return goat.Float64(0)
+		}
 		return goat.Float64(float64(k-1) + 0.5)
 	case "bool":
 		return goat.Bool(k == 1)
@@ -280,10 +301,21 @@ func interpretMapOps(impl mapImpl, ops []MapOp, cur int, iter int, ev *[]MapEven
 
 // ---- script generation ------------------------------------------------------------------------
 
-func mapOpsToScript(mk mapKinds, ops []MapOp) string {
+func mapOpsToScript(mk mapKinds, ops []MapOp) string { return mapOpsToScriptLit(mk, ops, 0) }
+
+// mapOpsToScriptLit: the first lit operations become the entries of the map literal
+func mapOpsToScriptLit(mk mapKinds, ops []MapOp, lit int) string {
 	var b strings.Builder
 	b.WriteString("package main\n\nfunc Main() {\n")
-	fmt.Fprintf(&b, "\tm := map[%s]%s{}\n", mk.keyType(), mk.valType())
+	var ents []string
+	for _, op := range ops[:lit] {
+		ents = append(ents, mk.keyLit(op.K)+": "+mk.valLit(op.V))
+	}
+	fmt.Fprintf(&b, "\tm := map[%s]%s{%s}\n", mk.keyType(), mk.valType(), strings.Join(ents, ", "))
+	for _, op := range ops[:lit] {
+		fmt.Fprintf(&b, "\tprintln(\"E\", \"set\", %s, %s)\n", mk.keyLit(op.K), mk.valLit(op.V))
+	}
+	ops = ops[lit:]
 	depth := 0
 	var emit func(ops []MapOp, ind string, curVar, itVar string)
 	emit = func(ops []MapOp, ind string, curVar, itVar string) {
@@ -536,6 +568,7 @@ func countEvents(ops []MapOp) int {
 // ---- the check ------------------------------------------------------------------------------------
 
 type mapTrace struct {
+	Lit    int // the first Lit operations (sets of distinct keys) are the entries of the map's literal / of NewMap
 	ID     string
 	Source string // script | host | go
 	Kinds  mapKinds
@@ -545,8 +578,22 @@ type mapTrace struct {
 	Events []MapEvent
 }
 
-func runMapHistory(source string, mk mapKinds, nk int, ops []MapOp) (*mapTrace, error) {
-	tr := &mapTrace{Source: source, Kinds: mk, NK: nk, Ops: ops}
+// litPrefix: how many leading operations are plain sets of distinct keys (they can form a literal)
+func litPrefix(ops []MapOp) int {
+	seen := map[int]bool{}
+	n := 0
+	for _, op := range ops {
+		if op.Op != "set" || op.K == 0 || op.Iter >= 0 || seen[op.K] {
+			break
+		}
+		seen[op.K] = true
+		n++
+	}
+	return n
+}
+
+func runMapHistory(source string, mk mapKinds, nk int, ops []MapOp, lit int) (*mapTrace, error) {
+	tr := &mapTrace{Source: source, Kinds: mk, NK: nk, Ops: ops, Lit: lit}
 	switch source {
 	case "go":
 		interpretMapOps(&goMap{m: map[int]int{}}, ops, 0, 0, &tr.Events)
@@ -554,14 +601,19 @@ func runMapHistory(source string, mk mapKinds, nk int, ops []MapOp) (*mapTrace, 
 		var perr any
 		func() {
 			defer func() { perr = recover() }()
-			h := &hostMap{mk: mk, nk: nk, m: goat.NewMap(mk.goatKeyType(), mk.goatValType(), nil)}
-			interpretMapOps(h, ops, 0, 0, &tr.Events)
+			var entries []goat.Value
+			for _, op := range ops[:lit] {
+				entries = append(entries, mk.keyValue(op.K), mk.valValue(op.V))
+				tr.Events = append(tr.Events, MapEvent{"ev": "set", "k": op.K, "v": op.V})
+			}
+			h := &hostMap{mk: mk, nk: nk, m: goat.NewMap(mk.goatKeyType(), mk.goatValType(), entries)}
+			interpretMapOps(h, ops[lit:], 0, 0, &tr.Events)
 		}()
 		if perr != nil {
 			tr.Events = append(tr.Events, MapEvent{"ev": "panic", "msg": fmt.Sprint(perr)})
 		}
 	case "script":
-		tr.Script = mapOpsToScript(mk, ops)
+		tr.Script = mapOpsToScriptLit(mk, ops, lit)
 		res := runMain(tr.Script, true)
 		evs, err := parseScriptMapEvents(mk, nk, res.Stdout)
 		if err != nil {
@@ -714,8 +766,13 @@ func checkC10(c *Ctx) {
 	r := rand.New(rand.NewSource(c.Seed))
 	var traces []*mapTrace
 	add := func(source string, mk mapKinds, nk int, ops []MapOp, tag string) {
-		tr, err := runMapHistory(source, mk, nk, ops)
-		tr.ID = fmt.Sprintf("%s/%s-%s/%s/%d", source, mk.Key, mk.Val, tag, len(traces))
+		// every second history starts from a map literal / NewMap with initial entries holding its leading sets
+		lit := 0
+		if len(traces)%2 == 1 && source != "go" {
+			lit = litPrefix(ops)
+		}
+		tr, err := runMapHistory(source, mk, nk, ops, lit)
+		tr.ID = fmt.Sprintf("%s/%s-%s/%s/%d/lit%d", source, mk.Key, mk.Val, tag, len(traces), lit)
 		if err != nil {
 			c.violate(hashKey(tr.Script), "script run produced unparseable output: "+err.Error(),
 				map[string]any{"source": tr.Script, "ops": ops})
